@@ -37,6 +37,54 @@ def optBytesJ : Option Bytes → J
   | some b => J.ofBytes b
   | none => J.null
 
+def optNatJ : Option Nat → J
+  | some n => J.ofNat n
+  | none => J.null
+
+def ndOptJ : NdOpt → J
+  | .lladdr t a => J.mk [("t", J.ofNat t), ("addr", J.ofBytes a)]
+  | .pfx plen flags valid pref a => J.mk [("t", J.ofNat 3), ("plen", J.ofNat plen), ("onlink", J.bool ((flags / 128) % 2 = 1)),
+      ("auto", J.bool ((flags / 64) % 2 = 1)), ("valid", J.ofNat valid), ("pref", J.ofNat pref), ("prefix", J.ofBytes a)]
+  | .mtu v => J.mk [("t", J.ofNat 5), ("mtu", J.ofNat v)]
+  | .generic t r => J.mk [("t", J.ofNat t), ("raw", J.ofBytes r)]
+
+def bitJ (n k : Nat) : J := J.bool ((n / k) % 2 = 1)
+
+/-- (class key, whether the Python object keeps `raw`, attributes) of a phase-2 header object -/
+def extJ : Ext → String × Bool × List (String × J)
+  | .mpls h => ("mpls", true, [("label", J.ofNat h.label), ("tc", J.ofNat h.tc), ("s", J.ofNat h.s), ("ttl", J.ofNat h.ttl)])
+  | .eapol h => ("eapol", true, [("version", J.ofNat h.version), ("type", J.ofNat h.type), ("bodylen", J.ofNat h.bodylen)])
+  | .eap h => ("eap", true, [("code", J.ofNat h.code), ("id", J.ofNat h.id), ("length", J.ofNat h.length), ("type", optNatJ h.type)])
+  | .vxlan v => ("vxlan", true, [("vni", optNatJ v)])
+  | .rip h => ("rip", true, [("command", J.ofNat h.command), ("version", J.ofNat h.version),
+      ("entries", J.arr (h.entries.map fun e => J.arr [J.ofNat e.af, J.ofNat e.tag, J.ofNat e.ip, J.ofNat e.mask, J.ofNat e.nh, J.num e.metric]))])
+  | .dns h => ("dns", true, [("id", J.ofNat h.id), ("qr", bitJ h.bits0 128), ("opcode", J.ofNat ((h.bits0 / 16) % 8)), ("aa", bitJ h.bits0 4),
+      ("tc", bitJ h.bits0 2), ("rd", bitJ h.bits0 1), ("ra", bitJ h.bits1 128), ("z", bitJ h.bits1 64), ("ad", bitJ h.bits1 32),
+      ("cd", bitJ h.bits1 16), ("rcode", J.ofNat (h.bits1 % 16))])
+  | .ipv6 h => ("ipv6", true, [("v", J.ofNat h.v), ("tc", J.ofNat h.tc), ("flow", J.ofNat h.flow), ("payload_length", J.ofNat h.plen),
+      ("nh", J.ofNat h.nh), ("hop_limit", J.ofNat h.hop), ("srcip", J.ofBytes h.src), ("dstip", J.ofBytes h.dst),
+      ("ext", J.arr (h.exts.map fun (t, nh, b) => J.arr [J.ofNat t, J.ofNat nh, J.ofBytes b]))])
+  | .icmp6 h => ("icmpv6", true, [("type", J.ofNat h.type), ("code", J.ofNat h.code), ("csum", J.ofNat h.csum)])
+  | .echo6 h => ("echo6", true, [("id", J.ofNat h.id), ("seq", J.ofNat h.seq)])
+  | .unreach6 u => ("unreach6", true, [("unused", J.ofNat u)])
+  | .timeEx6 => ("TimeExceeded", true, [])
+  | .tooBig6 m => ("PacketTooBig", true, [("mtu", J.ofNat m)])
+  | .ndRS os => ("NDRouterSolicitation", false, [("opts", J.arr (os.map ndOptJ))])
+  | .ndRA hop flags life reach retr os => ("NDRouterAdvertisement", false, [("hop_limit", J.ofNat hop), ("managed", bitJ flags 128),
+      ("other", bitJ flags 64), ("lifetime", J.ofNat life), ("reachable", J.ofNat reach), ("retrans", J.ofNat retr),
+      ("opts", J.arr (os.map ndOptJ))])
+  | .ndNS t os => ("NDNeighborSolicitation", false, [("target", J.ofBytes t), ("opts", J.arr (os.map ndOptJ))])
+  | .ndNA flags t os => ("NDNeighborAdvertisement", false, [("router", bitJ flags 128), ("solicited", bitJ flags 64),
+      ("override", bitJ flags 32), ("target", J.ofBytes t), ("opts", J.arr (os.map ndOptJ))])
+  | .gre h => ("gre", true, [("type", J.ofNat h.type), ("ver", J.ofNat h.ver), ("ssr", J.bool h.ssr), ("recursion", J.ofNat h.recursion),
+      ("csum", optNatJ h.csum), ("route_offset", J.ofNat h.routeOffset), ("key", optNatJ h.key), ("seq", optNatJ h.seq),
+      ("routing", match h.routing with
+        | some rs => J.arr (rs.map fun (af, so, l, sd) => J.arr [J.ofNat af, J.ofNat so, J.ofNat l, J.ofBytes sd])
+        | none => J.null)])
+  | .igmp h => ("igmp", true, [("vt", J.ofNat h.vt), ("mrt", J.ofNat h.mrt), ("csum", J.ofNat h.csum), ("addr", optNatJ h.addr),
+      ("groups", J.arr (h.groups.map fun g => J.arr [J.ofNat g.type, J.ofNat g.addr, J.ofNats g.srcs, J.ofBytes g.aux])),
+      ("extra", J.ofBytes h.extra)])
+
 def layer (k : String) (parsed : Bool) (raw : Option Bytes) (attrs : List (String × J)) : J :=
   J.mk ([("k", J.str k), ("parsed", J.bool parsed)] ++ (match raw with | some r => [("raw", J.ofBytes r)] | none => []) ++ attrs)
 
@@ -69,8 +117,15 @@ def chainJ : Frame → List J
   | .unreach h r n => layer "unreach" true (some r) [("unused", J.ofNat h.unused), ("next_mtu", J.ofNat h.nextMtu)] :: chainJ n
   | .timeEx h r n => layer "time_exceeded" true (some r) [("unused", J.ofNat h.unused)] :: chainJ n
   | .lldp ts p r => [layer "lldp" p (some r) [("tlvs", J.arr (ts.map tlvJ))], J.mk [("k", J.str "none")]]
+  | .ext x r n =>
+    let (k, keeps, attrs) := extJ x
+    layer k true (if keeps then some r else none) attrs :: chainJ n
 
 def excJ (s : String) : J := J.mk [("exc", J.str s)]
+def knownJ (e : PErr) : List (String × J) :=
+  match e with
+  | .known st => [("known", J.str st.name)]
+  | _ => []
 
 def handle (j : J) : Except String J := do
   let op ← j.string "op"
@@ -78,12 +133,12 @@ def handle (j : J) : Except String J := do
     let raw ← j.bytes "raw"
     let cfgName ← j.string "cfg"
     let cfg ← if cfgName = "repaired" then pure Cfg.repaired else if cfgName = "head" then pure Cfg.head
-              else throw s!"unknown cfg {cfgName}"
+              else if cfgName = "core" then pure Cfg.core else throw s!"unknown cfg {cfgName}"
     let d := match ← j.optNat "d" with
       | some d => d
       | none => budget raw
     match parseEthernet cfg d raw with
-    | .error e => pure (excJ e.toString)
+    | .error e => pure (J.mk ([("exc", J.str e.toString)] ++ knownJ e))
     | .ok f =>
       if f.hasForeign then
         pure (J.mk [("chain", J.arr (chainJ f)), ("foreign", J.bool true), ("pack", J.null), ("print", J.null)])
